@@ -235,13 +235,63 @@ def template_pieces(template, explicit_srcs, args):
     return pieces
 
 
+def is_call_t(t):
+    return isinstance(t, tuple) and t and t[0] == "call"
+
+
+def _is_struct_pat(p):
+    """A struct / tuple-struct pattern whose path is the matched type itself (not an enum variant)."""
+    path = (p.get("path") or "").split("<")[0]
+    ty = (p.get("ty") or "").replace("&mut ", "").replace("&", "").split("<")[0].strip()
+    return bool(path) and path == ty
+
+
+WORLD = {}          # id(body) -> {def path: body} of the crate the body belongs to (registered by facts.Facts)
+_KNOWN_FNS = None
+
+
+def known_functions():
+    global _KNOWN_FNS
+    if _KNOWN_FNS is None:
+        import json
+        import os
+        p = os.path.join(os.path.dirname(os.path.dirname(os.path.abspath(__file__))), "tables", "functions.json")
+        try:
+            with open(p) as f:
+                _KNOWN_FNS = set(json.load(f)["functions"])
+        except OSError:
+            _KNOWN_FNS = set()
+    return _KNOWN_FNS
+
+
+class AutoInline:
+    """Inline map used when a rule does not name one: explicit entries first, then every crate-local fn that did not exist on the
+    reviewed tree (tables/functions.json) - a helper introduced by a later edit - so that extracting code into a helper, or calling a
+    new one, leaves the paths and terms the rules look at unchanged."""
+
+    def __init__(self, body, explicit=None):
+        self.explicit = explicit or {}
+        self.world = WORLD.get(id(body)) or {}
+        self.owner = body.get("def")
+
+    def get(self, cal):
+        if cal in self.explicit:
+            return self.explicit[cal]
+        if cal is None or cal == self.owner or cal in known_functions():
+            return None
+        b = self.world.get(cal)
+        if b is None or b.get("kind") not in ("Fn", "AssocFn") or b.get("is_async") or "::tests::" in cal:
+            return None
+        return b
+
+
 class SymX:
     def __init__(self, body, macros=None, inline=None, depth=0):
         self.body = body
         self.macros = macros if macros is not None else body.get("macros", [])
         self.done = []
         self.npaths = 0
-        self.inline = inline or {}     # def path -> HIR body of local fns to inline at call sites
+        self.inline = inline if isinstance(inline, AutoInline) else AutoInline(body, inline)     # local fns to inline at call sites
         self.depth = depth
         self.breaks, self.continues = [], []
 
@@ -252,8 +302,9 @@ class SymX:
     def inline_call(self, cal, vals, s, node):
         """Evaluate a local callee's paths with its parameters bound to the argument terms."""
         cb = self.inline.get(cal)
-        if cb is None or self.depth >= 3:
+        if cb is None or self.depth >= 3 or cb is self.body:
             return None
+        WORLD.setdefault(id(cb), self.inline.world)
         sub = SymX(cb, None, self.inline, self.depth + 1)
         st0 = St()
         for i, p in enumerate(cb.get("params", [])):
@@ -274,6 +325,64 @@ class SymX:
             s2 = St(dict(s.env), s.conds + p.conds, s.trace + [("call", "<enter>", [("lit", cal)], node, off)] + shifted)
             res.append((s2, v))
         return res
+
+    # -- Option / Result combinators that take the two continuations as functions ----------
+    def apply_fn(self, fv, vals, s, e):
+        """Apply a closure term or a function / constructor path to argument terms: [(state, value)]."""
+        if isinstance(fv, tuple) and fv[0] == "closure" and self.depth < 3:
+            sub = SymX(self.body, self.macros, self.inline, self.depth + 1)
+            st0 = St(env=dict(fv[2]) if len(fv) > 2 else {})
+            for i, pp in enumerate(fv[1].get("params", [])):
+                sub.bind(pp, vals[i] if i < len(vals) else None, st0)
+            c_outs = sub.ev(fv[1]["body"], st0)
+            off = len(s.conds)
+            res = []
+            for p in [Path(bs, "fall", bv) for bs, bv in c_outs] + sub.done:
+                v = p.ret
+                if p.kind == "try":
+                    v = ("ctor", "std::result::Result::Err", [("call", "<from-err>", [p.ret[1]], e)])
+                shifted = [(t[:4] + (t[4] + off,)) if (len(t) > 4 and isinstance(t[4], int)) else t for t in p.trace]
+                res.append((St(dict(s.env), s.conds + p.conds, s.trace + shifted), v))
+            return res
+        if isinstance(fv, tuple) and fv[0] == "ctor" and not fv[2]:
+            return [(s, ("ctor", fv[1], list(vals)))]
+        if isinstance(fv, tuple) and fv[0] == "def" and fv[1].split("::")[-1][:1].isupper() and fv[1] not in (self.inline.world or {}):
+            return [(s, ("ctor", fv[1], list(vals)))]        # a tuple-variant / tuple-struct constructor used as a function
+        if isinstance(fv, tuple) and fv[0] == "def":
+            t = ("call", fv[1], list(vals), e)
+            s2 = s.fork()
+            s2.log(t)
+            return [(s2, t)]
+        return None
+
+    def expand_combinator(self, target, vals, s, e):
+        """`x.map_or_else(on_none, on_some)`, `x.map_or(default, f)`, `x.unwrap_or_else(f)`: the two arms of the match they stand for."""
+        name = target.split("::")[-1]
+        is_res = target.startswith("std::result::Result::")
+        is_opt = target.startswith("std::option::Option::")
+        if not (is_res or is_opt) or name not in ("map_or_else", "map_or"):
+            return None         # (unwrap_or_else / unwrap_or stay terms: several rules read them as "value or fallback")
+        x = vals[0]
+        good = "std::prelude::v1::Ok(v)" if is_res else "std::prelude::v1::Some(v)"
+        patnode = {"k": "ptuplestruct", "path": "std::prelude::v1::" + ("Ok" if is_res else "Some"), "pats": [{"k": "bind", "name": "v", "id": -1}]}
+        val = ("proj", x, ("Ok" if is_res else "Some") + ".0")
+        errv = ("proj", x, "Err.0")
+        s_yes = s.cond(("match", x, good, True, patnode, [], []))
+        s_no = s.cond(("match", x, "!" + good, False, patnode))
+        if name == "map_or_else" and len(vals) == 3:
+            a = self.apply_fn(vals[2], [val], s_yes, e)
+            b = self.apply_fn(vals[1], [errv] if is_res else [], s_no, e)
+        elif name == "map_or" and len(vals) == 3:
+            a = self.apply_fn(vals[2], [val], s_yes, e)
+            b = [(s_no, vals[1])]
+        elif name == "unwrap_or_else" and len(vals) == 2:
+            a = [(s_yes, val)]
+            b = self.apply_fn(vals[1], [errv] if is_res else [], s_no, e)
+        else:
+            return None
+        if a is None or b is None:
+            return None
+        return a + b
 
     # -- entry ---------------------------------------------------------------------------
     def run(self, node=None, params=None, env=None):
@@ -313,6 +422,8 @@ class SymX:
                 if val is not None:
                     if val[0] == "ctor" and val[1] == p.get("path") and isinstance(val[2], list) and i < len(val[2]):
                         v = val[2][i]
+                    elif _is_struct_pat(p):
+                        v = ("field", val, str(i))          # `let Self(x) = v` is `v.0`
                     else:
                         v = ("proj", val, "%s.%d" % ((p.get("path") or "?").split("::")[-1], i))
                 self.bind(q, v, st)
@@ -322,6 +433,8 @@ class SymX:
                 if val is not None:
                     if val[0] == "ctor" and isinstance(val[2], dict) and f["name"] in val[2]:
                         v = val[2][f["name"]]
+                    elif _is_struct_pat(p):
+                        v = ("field", val, f["name"])       # destructuring a struct is field access: `let Self { a, .. } = v` is `v.a`
                     else:
                         v = ("proj", val, "%s.%s" % ((p.get("path") or "?").split("::")[-1], f["name"]))
                 self.bind(f["p"], v, st)
@@ -331,6 +444,10 @@ class SymX:
                 self.bind(q, ("proj", val, "or") if val is not None else None, st)
         elif k == "pguard":
             self.bind(p["p"], val, st)
+        elif k == "pslice":
+            # `let [a, b] = arr` is arr[0], arr[1]
+            for i, q in enumerate(p.get("before", [])):
+                self.bind(q, ("index", val, ("lit", i)) if val is not None else None, st)
         # wild, pexpr, prange, pslice: nothing to bind (slices rare here)
 
     # -- helpers -------------------------------------------------------------------------
@@ -489,6 +606,14 @@ class SymX:
                 inl = self.inline_call(e.get("resolved") or target, vals, s, e)
                 if inl is not None:
                     outs.extend(inl)
+                    continue
+                if target in ("std::option::Option::<T>::as_ref", "std::option::Option::<T>::as_mut", "std::option::Option::<T>::as_deref", "std::option::Option::<T>::as_deref_mut",
+                              "std::result::Result::<T, E>::as_ref", "std::result::Result::<T, E>::as_mut") and len(vals) == 1:
+                    outs.append((s, vals[0]))
+                    continue
+                exp = self.expand_combinator(target, vals, s, e)
+                if exp is not None:
+                    outs.extend(exp)
                     continue
                 t = ("call", target, vals, e)
                 s2 = s.fork()
@@ -681,6 +806,22 @@ class SymX:
             inner = sc["args"][0] if sc.get("k") == "call" and sc.get("args") else sc
             outs = []
             for s, v in self.ev(inner, st):
+                head = v[1].split("::")[-1] if (isinstance(v, tuple) and v[0] == "ctor") else None
+                if head in ("Ok", "Some") and isinstance(v[2], list) and len(v[2]) == 1:
+                    outs.append((s, v[2][0]))            # known to be the success side on this path (an inlined helper returned Ok(..))
+                    continue
+                if head in ("Err", "None"):
+                    self.done.append(Path(s, "try", ("err?", v)))   # known to be the failure side
+                    continue
+                if is_call_t(v) and v[1] in ("std::result::Result::<T, E>::map", "std::option::Option::<T>::map") and len(v[2]) == 2:
+                    # `x.map(f)?` is `f(x?)`
+                    x, f = v[2]
+                    s_ok = s.cond(("if", ("call", "<is_err>", [x], e), False))
+                    applied = self.apply_fn(f, [("ok?", x)], s_ok, e)
+                    if applied is not None:
+                        self.done.append(Path(s.cond(("if", ("call", "<is_err>", [x], e), True)), "try", ("err?", x)))
+                        outs.extend(applied)
+                        continue
                 s_err = s.cond(("if", ("call", "<is_err>", [v], e), True))
                 self.done.append(Path(s_err, "try", ("err?", v)))
                 outs.append((s.cond(("if", ("call", "<is_err>", [v], e), False)), ("ok?", v)))
@@ -713,6 +854,27 @@ class SymX:
             for s, itv in self.ev(it, st):
                 if body is None:
                     outs.append((s, ("unit",)))
+                    continue
+                # a loop over a short literal array / tuple of expressions is its body written out once per element
+                lit = itv
+                while is_call_t(lit) and lit[1].split("::")[-1] in ("into_iter", "iter") and lit[2]:
+                    lit = lit[2][0]
+                if isinstance(lit, tuple) and lit[0] in ("array", "tuple") and 0 < len(lit[1]) <= 4:
+                    states, after = [s], []
+                    for el in lit[1]:
+                        nxt = []
+                        for s_cur in states:
+                            sub = self._sub()
+                            s_body = s_cur.fork()
+                            sub.bind(pat, el, s_body)
+                            for bs, _bv in sub.ev(body, s_body):
+                                nxt.append(bs)
+                            nxt.extend(bs for (_t, bs) in sub.continues)
+                            after.extend(bs for (_t, bs, _bv) in sub.breaks)
+                            self.done.extend(sub.done)
+                        states = nxt
+                        self._guard(len(states))
+                    outs.extend((x, ("unit",)) for x in states + after)
                     continue
                 sub = self._sub()
                 s_body = St(env=dict(s.env))
